@@ -30,8 +30,10 @@ class Sym(object):
         self.namespaces = dict(namespaces or {})   # name -> Sym-like dict of members
         self.class_name = class_name
 
-    def with_types(self, extra):
+    def with_types(self, extra, tparams=False):
         s = Sym(self.types | set(extra), self.templates, self.namespaces, self.class_name)
+        # the parameters of an enclosing template: they hide any type of the same name in an outer scope
+        s.tparams = set(getattr(self, "tparams", ())) | (set(extra) if tparams else set())
         return s
 
 
@@ -270,7 +272,7 @@ class Reader(object):
             d.extra["decl"] = self.class_stmt()
         else:
             saved = self.sym
-            self.sym = self.sym.with_types(params)
+            self.sym = self.sym.with_types(params, tparams=True)
             try:
                 d.extra["decl"] = self.declaration(top=True)
             finally:
@@ -350,7 +352,7 @@ class Reader(object):
         if named is not None:
             if named in self.sym.templates and not targs and not d.is_ctor:
                 raise RefReject("semantic:template", "template '%s' used without arguments" % named)
-            base = named
+            base = ("tparam:" + named) if named in getattr(self.sym, "tparams", ()) else named
         else:
             base = canon_specifier(words)
         return ("base", base, frozenset(cv), targs)
